@@ -160,6 +160,18 @@ pub fn str_from_utf8_unchecked(bytes: &[u8]) -> (r: &str)
     ensures str_bytes(r) == bytes@,
 { unsafe { std::str::from_utf8_unchecked(bytes) } }
 
+// `Cow<'a, str>` (symbol names): opaque, only the bytes are observable (R11)
+#[verifier::external_body]
+pub struct CowStr { inner: std::borrow::Cow<'static, str> }
+impl CowStr { pub uninterp spec fn bytes(&self) -> Seq<u8>; }
+impl Clone for CowStr {
+    #[verifier::external_body]
+    fn clone(&self) -> (r: Self) ensures r.bytes() == self.bytes() { unimplemented!() }
+}
+#[verifier::external_body]
+pub fn cow_borrowed(s: &str) -> (r: CowStr) ensures r.bytes() == str_bytes(s)
+{ unimplemented!() }
+
 // ------------------------------------------------------------------ iterator adapters (R6): verified helpers
 pub open spec fn count_of(s: Seq<u8>, c: u8) -> nat
     decreases s.len()
